@@ -30,6 +30,7 @@ import (
 type gstate struct {
 	id   int
 	wake chan struct{}
+	run  *run // the simulated process this goroutine belongs to (not necessarily the current one)
 }
 
 type schedState struct {
@@ -37,6 +38,7 @@ type schedState struct {
 	ready       []*gstate
 	nextGID     int
 	alive       int
+	inBlock     int // goroutines between BeginBlock and EndBlock (off the baton, in a real blocking operation)
 	arbitrating bool
 	decisions   int // picks among >= 2 candidates
 	picks       uint64
@@ -47,7 +49,7 @@ type schedState struct {
 
 func (r *run) schedInit() *gstate {
 	r.sch.dead = make(chan struct{})
-	g0 := &gstate{id: 0, wake: make(chan struct{}, 1)}
+	g0 := &gstate{id: 0, wake: make(chan struct{}, 1), run: r}
 	r.sch.nextGID = 1
 	r.sch.alive = 1
 	r.sch.holder = g0
@@ -156,6 +158,9 @@ func BeginBlock() *gstate {
 	r.smu.Lock()
 	g := r.sch.holder
 	r.sch.holder = nil
+	if g != nil {
+		r.sch.inBlock++
+	}
 	r.smu.Unlock()
 	if g == nil {
 		return nil
@@ -166,11 +171,16 @@ func BeginBlock() *gstate {
 
 // EndBlock is called right after the operation: the caller queues for the baton again.
 func EndBlock(g *gstate) {
-	r := cur
-	if r == nil || g == nil {
+	if g == nil {
 		return
 	}
-	if r.exited {
+	// the goroutine's own run: it may wake up long after its simulated process has ended and
+	// another one has become current; then it must unwind, not join the other's scheduler
+	r := g.run
+	r.smu.Lock()
+	r.sch.inBlock--
+	r.smu.Unlock()
+	if r.exited || r != cur {
 		runtime.Goexit()
 	}
 	r.enqueue(g)
@@ -199,7 +209,7 @@ func (r *run) yield() {
 // goStart registers a new goroutine as a candidate for the baton (called by its creator).
 func (r *run) goStart() *gstate {
 	r.smu.Lock()
-	g := &gstate{id: r.sch.nextGID, wake: make(chan struct{}, 1)}
+	g := &gstate{id: r.sch.nextGID, wake: make(chan struct{}, 1), run: r}
 	r.sch.nextGID++
 	r.sch.alive++
 	r.sch.ready = append(r.sch.ready, g)
